@@ -23,13 +23,13 @@ import z3
 from lib import codec as C
 from lib.codec import asn1tools
 from lib import runner, cgen
-from lib.cgen import Mapper, MappingError, CompileError
+from lib.cgen import Mapper, MappingError
 from lib.common import Compiled
 from lib.symvalue import Bounds, concretize, jsonable
 import cfront
 from cfront import Ptr, ival, U64, UB
 from pyfront import shimmed, unshimmed, SymBytes
-from symcore import HarnessError, Inconclusive
+from symcore import HarnessError
 
 PROP = 'C09'
 CODEC = 'uper'
@@ -149,7 +149,8 @@ def jobs_for(tier, codec=CODEC, templates=None, reject=None, quick_reject=None):
             for q in t.get('queries', ('E', 'S', 'F')):
                 jobs.append(dict(id='%s/%s%s/%s' % (codec, t['id'], ('.' + ty) if len(types) > 1 else '', q),
                                  template=t['id'], type=ty, query=q, tier=tier, codec=codec, expect='accept',
-                                 nbytes=max(nbytes, t.get('nbytes', 0)), numeric_enums=False))
+                                 nbytes=min(max(nbytes, t.get('nbytes', 0)), t.get('nbytes_cap', 99)),
+                                 numeric_enums=False))
     for t in (reject if reject is not None else REJECT):
         if tier == 'quick' and t['id'] not in (quick_reject or QUICK_REJECT):
             continue
@@ -304,7 +305,9 @@ def make_harness(job, templates=None, reject=None):
             return
         und = prog.depends_on_undef(*cells)
         if und:
-            ctx.violation('encode-output-depends-on-unwritten-object', '%s%s' % (sorted(und), _uninit_note(prog)))
+            ctx.note('result-depends-on-never-written-object')
+            ctx.violation('encode-output-depends-on-unwritten-object', '%s%s' % (sorted(und), _uninit_note(prog)),
+                          candidate=True)
             return
         same = z3.And([a == b for a, b in zip(cells, enc.c)]) if n else z3.BoolVal(True)
         if not ctx.prove('encode-bytes-equal-python', same):
@@ -331,7 +334,9 @@ def make_harness(job, templates=None, reject=None):
         cond = mp.compare(src, dst, st.td, st.module)
         und = prog.depends_on_undef(cond)
         if und:
-            ctx.violation('decode-result-depends-on-unwritten-object', '%s%s' % (sorted(und), _uninit_note(prog)))
+            ctx.note('result-depends-on-never-written-object')
+            ctx.violation('decode-result-depends-on-unwritten-object', '%s%s' % (sorted(und), _uninit_note(prog)),
+                          candidate=True)
             return
         if ctx.prove('decode-recovers-struct', cond, info=_missing(mp)):
             ctx.note('encode-decode-proved')
@@ -413,7 +418,8 @@ def make_harness(job, templates=None, reject=None):
         ctx.sample({'job': job['id'], 'input': din.hex(), 'return': rn})
         und = prog.depends_on_undef(r.e)
         if und:
-            ctx.violation('decode-return-depends-on-unwritten-object', _uninit_note(prog))
+            ctx.note('result-depends-on-never-written-object')
+            ctx.violation('decode-return-depends-on-unwritten-object', _uninit_note(prog), candidate=True)
             return
         if ctx.eng.branch(r.e < 0):
             ctx.note('input-rejected')
@@ -422,8 +428,9 @@ def make_harness(job, templates=None, reject=None):
             ctx.res.proved += 1
             return
         if prog.uninit:
-            ctx.violation('accepting-decode-reads-unwritten-object', _uninit_note(prog))
-            return
+            # indeterminate value of an unsigned char object whose address is taken: not UB; the
+            # properties below decide whether it matters (a result depending on it is reported)
+            ctx.note('accepting-path-reads-never-written-local(recorded; result checked for dependence)')
         try:
             ok = mp.valid(dst, st.td, st.module)
         except MappingError as e:
@@ -450,6 +457,12 @@ def make_harness(job, templates=None, reject=None):
         if not ctx.prove('redecode-succeeds', r3.e == n2):
             return
         cond = mp.compare(dst, dst2, st.td, st.module)
+        und = prog.depends_on_undef(cond, r2.e, r3.e)
+        if und:
+            ctx.note('result-depends-on-never-written-object')
+            ctx.violation('roundtrip-depends-on-unwritten-object', '%s%s' % (sorted(und), _uninit_note(prog)),
+                          candidate=True)
+            return
         if ctx.prove('redecode-same-struct', cond, info=_missing(mp)):
             ctx.note('accepted-roundtrip-proved')
 
